@@ -97,16 +97,29 @@ pub fn run_jobs(
                     let res = if sent.is_err() {
                         JobResult::Died("worker stdin closed".into())
                     } else {
-                        let limit = Duration::from_secs_f64(timeout_s(&jobs[i]));
-                        match wk.rx.recv_timeout(limit) {
-                            Ok(l) => match serde_json::from_str::<Value>(&l) {
-                                Ok(v) => JobResult::Resp(v),
-                                Err(e) => JobResult::Died(format!("garbled worker answer: {}", e)),
-                            },
-                            Err(RecvTimeoutError::Timeout) => JobResult::Timeout,
-                            Err(RecvTimeoutError::Disconnected) => {
-                                let st = wk.child.wait().map(|s| format!("{}", s)).unwrap_or_else(|e| e.to_string());
-                                JobResult::Died(st)
+                        // The watchdog counts its own 250 ms polls instead of comparing clock readings, so that a
+                        // pause of the whole machine (sandbox snapshot) or of this process is not mistaken for a
+                        // job that exceeded its limit.
+                        let limit_polls = (timeout_s(&jobs[i]) / 0.25).ceil() as u64;
+                        let mut polls = 0u64;
+                        loop {
+                            match wk.rx.recv_timeout(Duration::from_millis(250)) {
+                                Ok(l) => {
+                                    break match serde_json::from_str::<Value>(&l) {
+                                        Ok(v) => JobResult::Resp(v),
+                                        Err(e) => JobResult::Died(format!("garbled worker answer: {}", e)),
+                                    }
+                                }
+                                Err(RecvTimeoutError::Timeout) => {
+                                    polls += 1;
+                                    if polls > limit_polls {
+                                        break JobResult::Timeout;
+                                    }
+                                }
+                                Err(RecvTimeoutError::Disconnected) => {
+                                    let st = wk.child.wait().map(|s| format!("{}", s)).unwrap_or_else(|e| e.to_string());
+                                    break JobResult::Died(st);
+                                }
                             }
                         }
                     };
